@@ -218,7 +218,12 @@ fn get_configuration() -> Configuration {
     // configuration stops the command: going on with the defaults would take the current
     // directory for the library and rewrite files the configuration keeps out of it
     match std::fs::read_to_string(&path) {
-        Err(_) => Configuration::default(),
+        Err(error) if error.kind() == std::io::ErrorKind::NotFound => Configuration::default(),
+        // (a file that is there and cannot be read - not UTF-8, no permission - likewise)
+        Err(error) => {
+            eprintln!("cannot read {}: {}", path.display(), error);
+            std::process::exit(1);
+        }
         Ok(content) => match toml::from_str::<Configuration>(&content) {
             Ok(configuration) => configuration,
             Err(error) => {
